@@ -474,6 +474,8 @@ pub fn generate(r: &mut Rng, max_ops: usize) -> BScenario {
     // that the same key takes several different values between builds
     let focus_p = if r.chance(50) { Some(r.below(POPT_POOL.len() as u64) as usize) } else { None };
     let focus_l = if r.chance(50) { Some(r.below(LOPT_POOL.len() as u64) as usize) } else { None };
+    let mut last_p: Option<String> = None;
+    let mut last_l: Option<String> = None;
     let n = 3 + r.below(max_ops as u64 - 2) as usize;
     let mut ops = vec![];
     let ticks = [0u64, 1, 1_000, 1_000_000_000, 3_600_000_000_000];
@@ -485,13 +487,30 @@ pub fn generate(r: &mut Rng, max_ops: usize) -> BScenario {
         // an exact comparison of the recorded settings)
         if r.chance(30) {
             let mut did = false;
+            // half of the time the next value is a *relative* of the previous one (one rendering a
+            // prefix of the other, or the same constructor with another argument): the pairs a
+            // sloppy comparison of recorded settings confuses
+            let related = |a: &str, b: &str| a != b && (a.starts_with(b) || b.starts_with(a) || (a.contains(':') && b.contains(':') && a.split(':').next() == b.split(':').next()));
+            let mut pick_next = |r: &mut Rng, vals: &[&str], last: &Option<String>| -> String {
+                if let (Some(l), true) = (last, r.chance(50)) {
+                    let rel: Vec<&&str> = vals.iter().filter(|v| related(v, l)).collect();
+                    if !rel.is_empty() {
+                        return rel[r.below(rel.len() as u64) as usize].to_string();
+                    }
+                }
+                r.pick(vals).to_string()
+            };
             if let (Some(f), true) = (focus_p, r.chance(60)) {
                 let (k, vals) = POPT_POOL[f];
-                ops.push(Op::SetParserOpt(k.to_string(), Some(r.pick(vals).to_string())));
+                let v = pick_next(r, vals, &last_p);
+                last_p = Some(v.clone());
+                ops.push(Op::SetParserOpt(k.to_string(), Some(v)));
                 did = true;
             } else if let Some(f) = focus_l {
                 let (k, vals) = LOPT_POOL[f];
-                ops.push(Op::SetLexerOpt(k.to_string(), Some(r.pick(vals).to_string())));
+                let v = pick_next(r, vals, &last_l);
+                last_l = Some(v.clone());
+                ops.push(Op::SetLexerOpt(k.to_string(), Some(v)));
                 did = true;
             }
             if did {
